@@ -25,6 +25,7 @@ func init() {
 func runC08(p *core.Prog, r *core.Report) {
 	c08R1(p, r, "C08.R1")
 	c08R2(p, r, "C08.R2")
+	c08R6(p, r)
 	c08R3(p, r)
 	c08R4(p, r)
 	c08R5(p, r)
@@ -535,5 +536,79 @@ func c08R5(p *core.Prog, r *core.Report) {
 	}
 	if n == 0 {
 		r.Undecided(rule, "-", "fallback push", "-", "no manifestPut of the referrers index found")
+	}
+}
+
+// ---------------------------------------------------------------------------------------------
+// R6 the sweep takes everything that is not marked
+
+// callsInSlice collects the calls in the backward slice of v (through every operand).
+func callsInSlice(v ssa.Value) []*ssa.Call {
+	var out []*ssa.Call
+	seen := map[ssa.Value]bool{}
+	var walk func(x ssa.Value, d int)
+	walk = func(x ssa.Value, d int) {
+		if x == nil || seen[x] || d > 10 {
+			return
+		}
+		seen[x] = true
+		if c, ok := x.(*ssa.Call); ok {
+			out = append(out, c)
+		}
+		in, ok := x.(ssa.Instruction)
+		if !ok {
+			return
+		}
+		for _, op := range in.Operands(nil) {
+			if op != nil && *op != nil {
+				walk(*op, d+1)
+			}
+		}
+	}
+	walk(v, 0)
+	return out
+}
+
+func c08R6(p *core.Prog, r *core.Report) {
+	const rule = "C08.R6"
+	r.Rule(rule, "the sweep removes every unmarked entry below blobs/: whether an entry is removed does not depend on a test of the shape of its name (digest validation, algorithm availability, pattern or suffix match); the temporary files the layout's own writers leave behind have names that are not digests and must go too", 1)
+	closeFn := p.Method(ocidirRel, "OCIDir", "Close")
+	if closeFn == nil {
+		r.MissingAnchor(rule, ocidirRel+".(*OCIDir).Close")
+		return
+	}
+	shape := map[string]bool{"Validate": true, "Parse": true, "Available": true, "MatchString": true, "Match": true, "HasSuffix": true, "HasPrefix": true, "Contains": true, "Ext": true}
+	lab := labeler{}
+	n := 0
+	for _, c := range core.CallsTo(closeFn, func(f *types.Func) bool { return isOS(f, "Remove") || isOS(f, "RemoveAll") }) {
+		n++
+		label := lab.next("sweep removal independent of the name's shape")
+		bad := ""
+		for _, cd := range core.ControlDeps(c.(ssa.Instruction)) {
+			fromName, shapeCall := false, ""
+			for _, cc := range callsInSlice(cd.Cond) {
+				cal := core.Callee(cc)
+				if cal == nil {
+					continue
+				}
+				if cal.Name() == "Name" && len(cc.Call.Args) == 0 {
+					fromName = true
+				}
+				if shape[cal.Name()] {
+					shapeCall = cal.Name()
+				}
+			}
+			if fromName && shapeCall != "" {
+				bad = "the removal depends on " + shapeCall + "() of the entry's name (test at " + p.Pos(cd.Pos()) + ")"
+			}
+		}
+		if bad != "" {
+			r.Violated(rule, p.FuncName(closeFn), label, p.Pos(c.Pos()), bad+": files whose names are not digests (leftover *.tmp files of interrupted or failed writes) are never collected")
+		} else {
+			r.Held(rule, p.FuncName(closeFn), label, p.Pos(c.Pos()), "removal depends only on the mark set, the bookkeeping and errors")
+		}
+	}
+	if n == 0 {
+		r.Undecided(rule, p.FuncName(closeFn), "sweep removal", p.Pos(closeFn.Pos()), "no file removal found in Close")
 	}
 }
